@@ -125,17 +125,36 @@ func parseSingleConstraint(c string) ([]*constraint, error) {
 	return []*constraint{{operator: "=", version: c}}, nil
 }
 
-// parseCaretRange handles caret ranges (^1.2.3)
-func parseCaretRange(version string) ([]*constraint, error) {
+// parsePartialVersion parses the base of a caret or tilde range, which may be partial
+// (1, 1.2 or 1.2.3[-prerelease]); missing components are zero. It returns the version
+// and the number of components that were written.
+func parsePartialVersion(version string) (*Version, int, error) {
 	e := &Ecosystem{}
+	trimmed := strings.TrimPrefix(strings.TrimSpace(version), "v")
+	if trimmed != "" && !strings.ContainsAny(trimmed, "-+") {
+		switch strings.Count(trimmed, ".") {
+		case 0:
+			v, err := e.NewVersion(trimmed + ".0.0")
+			return v, 1, err
+		case 1:
+			v, err := e.NewVersion(trimmed + ".0")
+			return v, 2, err
+		}
+	}
 	v, err := e.NewVersion(version)
+	return v, 3, err
+}
+
+// parseCaretRange handles caret ranges (^1.2.3, ^1.2, ^1)
+func parseCaretRange(version string) ([]*constraint, error) {
+	v, components, err := parsePartialVersion(version)
 	if err != nil {
 		return nil, err
 	}
 
 	// Special rules for caret ranges with zero versions
-	if v.major == 0 {
-		if v.minor == 0 {
+	if v.major == 0 && components > 1 {
+		if v.minor == 0 && components > 2 {
 			// ^0.0.3 means >=0.0.3 <0.0.4-0 (only patch changes, excludes prereleases from next patch)
 			return []*constraint{
 				{operator: ">=", version: v.normalize()},
@@ -143,28 +162,36 @@ func parseCaretRange(version string) ([]*constraint, error) {
 			}, nil
 		}
 		// ^0.2.3 means >=0.2.3 <0.3.0-0 (patch and minor changes, excludes prereleases from next minor)
+		// ^0.0 means >=0.0.0 <0.1.0-0
 		return []*constraint{
 			{operator: ">=", version: v.normalize()},
 			{operator: "<", version: fmt.Sprintf("0.%d.0-0", v.minor+1)},
 		}, nil
 	}
 
-	// ^1.2.3 means >=1.2.3 <2.0.0-0 (excludes prereleases from next major)
+	// ^1.2.3 means >=1.2.3 <2.0.0-0 (excludes prereleases from next major); ^0 means >=0.0.0 <1.0.0-0
 	return []*constraint{
 		{operator: ">=", version: v.normalize()},
 		{operator: "<", version: fmt.Sprintf("%d.0.0-0", v.major+1)},
 	}, nil
 }
 
-// parseTildeRange handles tilde ranges (~1.2.3)
+// parseTildeRange handles tilde ranges (~1.2.3, ~1.2, ~1)
 func parseTildeRange(version string) ([]*constraint, error) {
-	e := &Ecosystem{}
-	v, err := e.NewVersion(version)
+	v, components, err := parsePartialVersion(version)
 	if err != nil {
 		return nil, err
 	}
 
-	// ~1.2.3 means >=1.2.3 <1.3.0-0 (excludes prereleases from next minor)
+	// ~1 means >=1.0.0 <2.0.0-0
+	if components == 1 {
+		return []*constraint{
+			{operator: ">=", version: v.normalize()},
+			{operator: "<", version: fmt.Sprintf("%d.0.0-0", v.major+1)},
+		}, nil
+	}
+
+	// ~1.2.3 means >=1.2.3 <1.3.0-0 (excludes prereleases from next minor); ~1.2 means >=1.2.0 <1.3.0-0
 	return []*constraint{
 		{operator: ">=", version: v.normalize()},
 		{operator: "<", version: fmt.Sprintf("%d.%d.0-0", v.major, v.minor+1)},
